@@ -12,16 +12,18 @@ CHECK = {
            'library, fetches the text from the sink, reads it back through the real library and compares: sink text == filler + text of each '
            'value written alone (String sink == File sink), writer and reader return start + characters written, File stream offset == that '
            'number, value read == value written (Float: == strtod of the written text; readers that C defines as float readers: strtof; '
-           'raw %s readers: the token libc sscanf yields); distinct_nontrivial = cases whose value is negative or beyond int32 (Int), not '
+           'raw %s readers: the token libc sscanf yields); in addition, for every value domain, single print_to calls whose argument list repeats an object - '
+           '(x,x), (x,x,y), (x,y,x), (x,y,y,z) - read back by one scan_from into distinct destinations, and (x,y,z) read into (d,d,e) with the same '
+           'destination twice (the later value must win, e must still be filled), every spec-based writer x compatible reader x separator x sink x start; distinct_nontrivial = cases whose value is negative or beyond int32 (Int), not '
            'representable as a float (Float), or contains anything but plain letters (String)'),
   'bounds': {
     'quick': ('89 Int values (0, +-1, +-9, +-10, 2^k and 2^k+-1 for 16 exponents up to 62, INT32/UINT32/INT64 limits and neighbours; 12 in pairs) x 15 writers x 13 readers; '
               '348 finite doubles (powers of 2 and 10 across the range, 2^24+-1, 2^53+-1, 1/3, 0.1, DBL_MAX/MIN, FLT_MAX/MIN and beyond, denormals, +-0, both signs; 16 in pairs) '
               'x 14 writers x 10 readers; all 2380 strings of length <= 3 over {a, space, ", \\, \', ?, \\n, \\t, \\a, 0x01, 0x7F, 0x80, 0xFF} plus one of '
-              'length 40 (pairs from the 14 strings of length <= 1) x 3 writers x 3 readers; 3 sink kinds; the same under ASan+UBSan'),
+              'length 40 (pairs from the 14 strings of length <= 1) x 3 writers x 3 readers; 3 sink kinds; repeated-argument lists over 6 Int, 6 Float and 15 String values (ordered pairs x,y with a third z); the same under ASan+UBSan'),
     'thorough': ('484 Int values (all 2^k, 2^k+-1, 10^k, 10^k+-1; 49 in pairs); 20438 finite doubles (every power of two -1074..1023 with both '
                  'neighbours, every power of ten -323..308 with neighbours and multiples, both signs; 68 in pairs); all 30941 strings of length <= 4 '
-                 '(pairs from the 183 of length <= 2); ASan+UBSan on the Int full grid, the quick Float grid and strings <= 3 with pairs <= 2'),
+                 '(pairs from the 183 of length <= 2); repeated-argument lists over 12 Int, 12 Float and 30 String values; ASan+UBSan on the Int full grid, the quick Float grid and strings <= 3 with pairs <= 2'),
   },
   'assumptions': [
     'glibc strtod/strtof/sscanf/snprintf are the reference for "the best any reader can do at the printed precision" and for the C semantics of %s and of float readers without l',
@@ -41,16 +43,16 @@ CHECK = {
       T('string-asan', 'asan', 'type=string'),
     ],
     'thorough': [
-      T('int', 'base', 'type=int', 'grid=full'),
-      T('float-str', 'base', 'type=float', 'grid=full', 'sinks=str'),
-      T('float-tmp', 'base', 'type=float', 'grid=full', 'sinks=tmp'),
-      T('float-mem', 'base', 'type=float', 'grid=full', 'sinks=mem'),
-      T('string-str', 'base', 'type=string', 'strlen=4', 'pairlen=2', 'sinks=str'),
-      T('string-tmp', 'base', 'type=string', 'strlen=4', 'pairlen=2', 'sinks=tmp'),
-      T('string-mem', 'base', 'type=string', 'strlen=4', 'pairlen=2', 'sinks=mem'),
-      T('int-asan', 'asan', 'type=int', 'grid=full'),
+      T('int', 'base', 'type=int', 'grid=full', 'repeatvals=12'),
+      T('float-str', 'base', 'type=float', 'grid=full', 'sinks=str', 'repeatvals=12'),
+      T('float-tmp', 'base', 'type=float', 'grid=full', 'sinks=tmp', 'repeatvals=12'),
+      T('float-mem', 'base', 'type=float', 'grid=full', 'sinks=mem', 'repeatvals=12'),
+      T('string-str', 'base', 'type=string', 'strlen=4', 'pairlen=2', 'sinks=str', 'repeatvals=30'),
+      T('string-tmp', 'base', 'type=string', 'strlen=4', 'pairlen=2', 'sinks=tmp', 'repeatvals=30'),
+      T('string-mem', 'base', 'type=string', 'strlen=4', 'pairlen=2', 'sinks=mem', 'repeatvals=30'),
+      T('int-asan', 'asan', 'type=int', 'grid=full', 'repeatvals=12'),
       T('float-asan', 'asan', 'type=float'),
-      T('string-asan', 'asan', 'type=string', 'strlen=3', 'pairlen=2'),
+      T('string-asan', 'asan', 'type=string', 'strlen=3', 'pairlen=2', 'repeatvals=30'),
     ],
   },
 }
